@@ -160,11 +160,14 @@ PROPS["C03"] = dict(
                "and instant, including the in-batch tombstone removal (index_step, proved on the per-(dataset, referencing entity) index model whose algorithm Hub.Store.writeRefs repeats); "
                "the unpaged outgoing scan — reverse iteration with its seen/added sets — returns a pair exactly once, iff for some in-scope non-deleted dataset the newest key of "
                "(source, predicate, target, dataset) recorded <= at is live, for every database, predicate filter, instant and scope (outgoing_unpaged); together: under the index invariant the "
-               "outgoing query equals the graph implied by the latest versions (outgoing_eq_graph). Paged outgoing scans and incoming scans with continuations are executable models compared "
-               "with the real store and with the graph specification on generated histories. Incoming is NOT the transpose of outgoing when a referencing entity has several (predicate, dataset) "
+               "outgoing query equals the graph implied by the latest versions (outgoing_eq_graph); a page with any limit is a window of the unpaged result and following the continuation "
+               "keys concatenates to exactly the unpaged list, nothing missing and nothing twice, for every limit >= 1 (outgoing_page_window, outgoing_paged_eq_unpaged — the fast-forward marks "
+               "pairs as added exactly as the unpaged scan does). Incoming scans with continuations and the multi-start-point wrapper are executable models compared with the real store and "
+               "with the graph specification on generated histories. Incoming is NOT the transpose of outgoing when a referencing entity has several (predicate, dataset) "
                "combinations towards the start entity: incoming_not_transpose, known finding D4.",
     level_note="Trusted: Lean kernel, factgen, badger. That the whole-store write path keeps the per-(dataset, entity) index invariant (the hypothesis of outgoing_eq_graph) is index_step "
-               "per write plus the correspondence for the embedding into the store model; paging is validated by the correspondence.",
+               "per write plus the correspondence for the embedding into the store model. The theorems are about Hub.Store.relatedOut, which the correspondence compares with the real "
+               "GetRelatedAtTime (pages, continuations) on every generated query.",
 )
 
 PROPS["C06"] = dict(
